@@ -13,10 +13,17 @@ SPEC = {
         # the teardown protocol on the real server: RemoveUser / Close return, no goroutine left. Labels:
         # `c19teardown ctxcancel-hang` (regression for #13c), `c19teardown #13d` (regression: removeState closes the
         # state also when its DB write fails), `c19teardown #13a-errch` (regression: Server.Close discards serveErrCh)
-        {"name": "c19teardown", "quick_args": ["-n", "6"], "thorough_args": ["-n", "400"], "timeout": 3000},
+        # Directed scenarios on every seed (+ -n random ones): every way a session can END in every protocol state -
+        # client reset / close while a FETCH of 8 MiB is producing and the client does not read (response channel and
+        # socket buffers full), reset / close in a literal, IDLE left by DONE / a malformed line / another command /
+        # close / reset / reset right behind IDLE or DONE / RemoveUser / Server.Close / a cancelled Serve context,
+        # LOGOUT pipelined behind the FETCH; labels `c19teardown hang` (names the blocked goroutines),
+        # `c19teardown leak` (names the goroutines left, baseline subtracted), `c19teardown command-incomplete`.
+        # `-stalled` (known finding K-removeuser-stalled-writer): RemoveUser while a non-reading client is still connected (`c19teardown stalled-writer`).
+        {"name": "c19teardown", "quick_args": ["-n", "6", "-stalled"], "thorough_args": ["-n", "400", "-stalled"], "timeout": 3000},
         # SEARCH ONLY, thorough tier: the same scenarios + the snapshot-race scenario under a `go build -race`
         # harness; label `c19race #13b` (removeState reads another session's snapshot), `c19race data-race` otherwise
-        {"name": "c19race", "quick_args": ["-skip"], "thorough_args": ["-hist", "5000", "-teardown", "40", "-snaprace", "15"], "timeout": 3000},
+        {"name": "c19race", "quick_args": ["-skip"], "thorough_args": ["-hist", "5000", "-teardown", "40", "-snaprace", "15", "-updrace", "40"], "timeout": 3000},
     ],
     "rule": "evaluations = recorded QueuedChannel histories + termination probes + whole-server teardown scenarios; "
             "non-trivial = the Lean judge replayed a history with >0 items on the model (interleaved producers / discard / plain FIFO), "
@@ -25,7 +32,8 @@ SPEC = {
         "Lean 4 kernel; axioms limited to propext, Classical.choice, Quot.sound (audited per theorem); `decide +kernel` for the regenerated lock table",
         "hand-written transition systems GluonModel/Model/Conc.lean of async.QueuedChannel, of Mutex/RWMutex semantics and of the teardown protocol of internal/backend (user.close/removeState/statesWG, RemoveUser/Close under usersLock, session.done); tied to the code by recorded histories (queue) and whole-server scenarios (teardown), not by proof",
         "facts translator harness/facts_locks.go (go/types over internal/backend, store, async, internal/db_impl/sqlite3 and the gluon packages they import; third-party imports replaced by empty packages): the *events* per function are trusted; summaries and lock ranks are certificates re-checked by GluonModel/Model/ConcFacts.lean",
-        "Go runtime: runtime.NumGoroutine / WaitGroup as the observation of 'goroutine gone'",
+        "hand-written transition systems GluonModel/Model/ConcCmd.lean of one command's response pipeline (producers, 8-slot channel, serve loop, drainer) and of the per-IDLE forwarder; tied to the code by the syntactic facts of harness/facts_c19gostop.go (Generated/Facts/GoStop.lean: shapes of State.Idle, endIdle, handleIdle's forwarder, serve's failed-Send branch, handleOther, the command reader; the list of goroutine starts of internal/session and internal/state) and by the whole-server teardown scenarios",
+        "Go runtime: runtime.NumGoroutine / runtime.Stack / WaitGroup as the observation of 'goroutine gone'",
     ],
     "assumptions": [
         "lock identity is per declaring type + field path (lock classes, as in lockdep); two instances of one class are not told apart",
@@ -35,6 +43,7 @@ SPEC = {
         "context.CancelFunc values called under a lock are standard-library leaves",
         "teardown_completes: each session loop observes Done (named hObservesDone) - nothing else; failures of removeState's DB read / DB write and of connector.Close are part of the model",
         "blocking on channels / WaitGroups while holding a lock is modelled only inside the teardown protocol (statesWG.Wait under usersLock)",
+        "command pipeline model: producers publish by plain blocking sends (as Mailbox.Fetch does: `ch <- response`, no select on the context); a session blocked in conn.Write because its client neither reads nor disconnects is outside hObservesDone (RemoveUser then waits for that client; oracle scenario behind `-stalled`)",
     ],
     "explanation": (
         "PARTIAL PROOF. THEOREMS (all interleavings, unbounded threads/sessions/items, over the models): "
@@ -44,16 +53,26 @@ SPEC = {
         "queue_discard_consumer_exits, acyclic_no_deadlock, lockset_no_conflict, teardown_safe (no assumption: every "
         "state created is closed once Close has returned), teardown_completes "
         "(only assumption: session loops observe Done), teardown_ctxcancel_now_completes (regression run of the "
-        "repaired hang), teardown_writefail_now_clean (regression run of #13d), teardown_stuck_without_observe_witness. "
+        "repaired hang), teardown_writefail_now_clean (regression run of #13d), teardown_stuck_without_observe_witness, "
+        "command_drained_completes (a command goroutine finishes for every interleaving and every failing write because the "
+        "failed-Send path keeps draining its channel), command_undrained_stuck + command_undrained_stuck_witness (without the drain it never "
+        "does), idle_forwarder_exits (the per-IDLE forwarder exits on every way out of IDLE: endIdle is deferred), "
+        "idle_not_deferred_leak_witness, session_goroutines_classified (the goroutine starts of internal/session and "
+        "internal/state are exactly the modelled four). "
         "FACTS (regenerated from /repo on every run, decided by the kernel): lock_facts_checked / lockorder_acyclic "
         "(lock-order graph incl. calls, literals and callbacks run under callee locks has no cycle), guarded_access "
         "(user.states, Backend.users, WriteControlledStore.entryTable, QueuedChannel.items accessed only under their "
         "lock), facts_lockorder_no_deadlock, stateCloseDiscards = some true and serverErrChDiscards = some true (inside "
-        "state_close_consumer_exits / server_errch_close_classified). SEARCH ONLY (no proof): data-race freedom of fields no lock guards (State.snap "
+        "state_close_consumer_exits / server_errch_close_classified), GoStop facts sendFailDrains / commandClosesRespCh / respChCap / "
+        "idleEndDeferred / endIdleClosesCh / idleForwarderStopsOnClose / readerStops / serveDefersDoneAndWait / unknownSpawns = [] "
+        "(unknown shapes are `none` and fail the theorem). SEARCH ONLY (no proof): data-race freedom of fields no lock guards (State.snap "
         "read by foreign goroutines, #13b), scheduler-dependent liveness, whole-server behaviour: oracles c19queue "
         "(histories of the real queue must be model runs; termination probes incl. the real State.Close), c19teardown "
-        "(RemoveUser/Close return, goroutine count returns to baseline; regression scenarios for #13a/#13c/#13d/#13a-errch) and, "
-        "thorough tier, c19race (the same scenarios and a snapshot-race scenario under `go build -race`), plus the "
+        "(RemoveUser/Close return, goroutine count returns to baseline, after sessions ended in every way in every protocol "
+        "state: reset/close under a large FETCH nobody reads, in a literal, in IDLE, IDLE left by DONE / malformed line / cancelled "
+        "context, pipelined LOGOUT; regression scenarios for #13a/#13c/#13d/#13a-errch) and, "
+        "thorough tier, c19race (the same scenarios, a snapshot-race scenario and an updates-vs-login/logout scenario under "
+        "`go build -race`), plus the "
         "lead's TCP stress harness."
     ),
 }
